@@ -103,6 +103,46 @@ def replay(chk, vecs, par=8):
     return out
 
 
+def free_runs(chk):
+    # ---- T: free runs
+    out = chk.vh(["c09-record"], timeout=1800)
+    det = [json.loads(x) for x in out.splitlines() if x.strip()]
+    badd = chk.validate("DetTrace", [dict(key=d["key"], digest=d["digest"], realised=True) for d in det], chunks=1)
+    chk.traces += len(det)
+    for e, why in badd:
+        conds = [d["cond"] for d in det if d["key"] == e["key"] and d["digest"] == e["digest"]]
+        chk.violation("free-run:%s:%s" % (e["key"], why), "output of %s differs between runs (%s): e.g. under %s" % (e["key"], why, conds[:2]),
+                      dict(kind="free-run", key=e["key"]))
+    # ---- T: event-level conformance of the free-running pool with EvalPool.tla
+    import os
+    ncpu = os.cpu_count() or 4
+    rejected = 0
+    for gmp in sorted({1, 2, ncpu}):
+        out = chk.vh(["c09-pool-record"], timeout=600, env={"GOMAXPROCS": str(gmp)})
+        rec = json.loads(out.strip().splitlines()[0])
+        rec["events"] = rec.get("events") or []
+        if not rec["events"]:
+            chk.notes.append("GOMAXPROCS=%d: the render produced no pool events (pool not used?)" % gmp)
+            continue
+        cfg = POOLTRACE_CFG % (max(ncpu, max([e[1] for e in rec["events"] if e[0] >= 3] + [1])), rec["n"], 100, rec["layers"])
+        res = chk.tlc("EvalPoolTrace", cfg_text=cfg, workers=1, timeout=900, count=False,
+                      files={"trace.ndjson": json.dumps(dict(events=rec["events"])) + "\n"},
+                      name="EvalPoolTrace GOMAXPROCS=%d" % gmp)
+        if res.violated:
+            chk.violation("pool-trace:invariant:%s" % ",".join(res.violated),
+                          "an invariant of EvalPool.tla fails on the event log of a real free-running render (GOMAXPROCS=%d): %s" % (gmp, res.violated),
+                          dict(kind="free-run", gomaxprocs=gmp))
+            continue
+        hw = res.printed("HW")
+        if not hw or int(hw[-1]) < 200000:
+            rejected += 1
+            chk.notes.append("pool event log (GOMAXPROCS=%d) not explained by EvalPool.tla beyond event %s" % (gmp, hw[-1] if hw else "?"))
+        chk.events += len(rec["events"])
+        chk.traces += 1
+    if rejected:
+        raise vlib.Inconclusive("real pool event logs are not behaviours of EvalPool.tla (model/code divergence): %s" % chk.notes[-1])
+
+
 def run(chk, replay_rec):
     chk.build()
     chk.gen()
@@ -114,7 +154,9 @@ def run(chk, replay_rec):
     if replay_rec:
         r = replay_rec["replay"]
         if "vectors" not in r:
-            raise vlib.Inconclusive("free-run determinism findings are re-run with VERIF_SEED=%s" % replay_rec.get("seed"))
+            chk.seed = replay_rec.get("seed", chk.seed)
+            free_runs(chk)
+            return
         obs = replay(chk, r["vectors"], par=1)
         ev = [dict(key="scene", digest=o["digest"], realised=o["realised"]) for o in obs]
         for e, why in chk.validate("DetTrace", ev, chunks=1):
@@ -200,43 +242,7 @@ def run(chk, replay_rec):
                       dict(vectors=ref + culprit))
     if unreal > len(obs) // 50:
         raise vlib.Inconclusive("%d of %d schedules could not be realised on the real code" % (unreal, len(obs)))
-    # ---- T: free runs
-    out = chk.vh(["c09-record"], timeout=1800)
-    det = [json.loads(x) for x in out.splitlines() if x.strip()]
-    badd = chk.validate("DetTrace", [dict(key=d["key"], digest=d["digest"], realised=True) for d in det], chunks=1)
-    chk.traces += len(det)
-    for e, why in badd:
-        conds = [d["cond"] for d in det if d["key"] == e["key"] and d["digest"] == e["digest"]]
-        chk.violation("free-run:%s:%s" % (e["key"], why), "output of %s differs between runs (%s): e.g. under %s" % (e["key"], why, conds[:2]),
-                      dict(kind="free-run", key=e["key"]))
-    # ---- T: event-level conformance of the free-running pool with EvalPool.tla
-    import os
-    ncpu = os.cpu_count() or 4
-    rejected = 0
-    for gmp in sorted({1, 2, ncpu}):
-        out = chk.vh(["c09-pool-record"], timeout=600, env={"GOMAXPROCS": str(gmp)})
-        rec = json.loads(out.strip().splitlines()[0])
-        rec["events"] = rec.get("events") or []
-        if not rec["events"]:
-            chk.notes.append("GOMAXPROCS=%d: the render produced no pool events (pool not used?)" % gmp)
-            continue
-        cfg = POOLTRACE_CFG % (max(ncpu, max([e[1] for e in rec["events"] if e[0] >= 3] + [1])), rec["n"], 100, rec["layers"])
-        res = chk.tlc("EvalPoolTrace", cfg_text=cfg, workers=1, timeout=900, count=False,
-                      files={"trace.ndjson": json.dumps(dict(events=rec["events"])) + "\n"},
-                      name="EvalPoolTrace GOMAXPROCS=%d" % gmp)
-        if res.violated:
-            chk.violation("pool-trace:invariant:%s" % ",".join(res.violated),
-                          "an invariant of EvalPool.tla fails on the event log of a real free-running render (GOMAXPROCS=%d): %s" % (gmp, res.violated),
-                          dict(kind="free-run", gomaxprocs=gmp))
-            continue
-        hw = res.printed("HW")
-        if not hw or int(hw[-1]) < 200000:
-            rejected += 1
-            chk.notes.append("pool event log (GOMAXPROCS=%d) not explained by EvalPool.tla beyond event %s" % (gmp, hw[-1] if hw else "?"))
-        chk.events += len(rec["events"])
-        chk.traces += 1
-    if rejected:
-        raise vlib.Inconclusive("real pool event logs are not behaviours of EvalPool.tla (model/code divergence): %s" % chk.notes[-1])
+    free_runs(chk)
     chk.sample(dict(schedule=obs[1]["sched"], digest=obs[1]["digest"], triangles=obs[1]["nt"], layers=obs[1]["layers"]))
     chk.sample(dict(free_run=det[0]))
     chk.cov.update(dict(schedules_forced=len(obs), schedules_unrealised=unreal, distinct_schedules=len(scheds),
